@@ -18,7 +18,7 @@ of a truncated copy with 1..N-1 result sets, or of the listing opened with one t
 
 Sequences: every concrete action alone (from the first and from the last result set); every pair of the
 9 action classes; every class sequence of length 3 (quick, 6 merged classes) / 4 (thorough, 9 classes;
-files > 150 kB: a seeded sample), the concrete parameters of a class (which index, exact / between /
+files > 90 kB: a seeded sample), the concrete parameters of a class (which index, exact / between /
 before-first / after-last time and step, which history selection) rotating through their variants;
 the out-of-range index in context; random sequences of 30 actions.  Failing sequences are shrunk.
 
@@ -362,8 +362,8 @@ def sequences(pool, n, rnd, mode, size):
         rot[c] += 1
         return v
     # (all variants alone?, pairs?, (alphabet, length) of the long product or None, cap on it, random sequences)
-    plan = {('full', True): (False, True, (merged, 3), 216, 8), ('full', False): (True, True, (classes, 4), 1000000000 // max(size, 1), 60),
-            ('trunc', True): (False, True, None, 0, 2), ('trunc', False): (True, True, (classes, 3), 250000000 // max(size, 1), 20),
+    plan = {('full', True): (False, True, (merged, 3), 216, 8), ('full', False): (True, True, (classes, 4), 600000000 // max(size, 1), 60),
+            ('trunc', True): (False, True, None, 0, 2), ('trunc', False): (True, True, (classes, 3), 150000000 // max(size, 1), 20),
             ('skip', True): (False, False, None, 0, 2), ('skip', False): (True, True, (merged, 3), 216, 20),
             ('single', True): (False, False, None, 0, 1), ('single', False): (True, True, None, 0, 10)}[(mode, QUICK)]
     allv, pairs, longp, cap, nrandom = plan
@@ -590,7 +590,7 @@ def main():
     slow = sorted(((round(r.get('seconds', -1), 1), r['rel'], r['cases']) for r in res), reverse=True)[:3]
     samples = samples[:5]
     samples.append({'contract_evaluations': counts, 'sequences_played': ncases, 'files': len(files),
-                    'truncated_copies': len(job_n), 'jobs': len(jobs), 'sequences_skipped_for_time': skipped, 'slowest_jobs': slow})
+                    'truncated_copies': len(job_n), 'jobs': len(jobs), 'sequences_not_run_out_of_time_or_after_repeated_hangs': skipped, 'slowest_jobs': slow})
     print('@@JSON@@' + json.dumps({'evaluations': sum(counts.values()), 'distinct': distinct, 'failures': shown,
                                    'nfailures': nfail, 'samples': samples, 'seconds': time.time() - t0}))
 
